@@ -135,6 +135,57 @@ def make_env(spec):
     return body
 
 
+def make_stored_fmt(spec):
+    """a format spec STORED on the style (.fmt(spec) / fmt= / style(text, fmt=...)) under every colour policy: str(), len() and f-string-free
+    rendering give the formatted text (plain when colour is off)"""
+    from tatsu.util.tty import descape
+    from tatsu.ztyle.style import Color, Style
+    specs = ['>5', '<4', '^6', '.1', '*^7', '3']
+    texts = ['x', 'hello', 'a{b', 'é日']
+
+    def native(sel):
+        pol, how, si, ti, bold = sel
+        color = [Color.always, Color.never, lambda: Color(enable=False), lambda: Color(enable=True)][pol]()
+        spec_, t = specs[si], texts[ti]
+        base = Style(t, bold=bool(bold), fg=2, color=color)
+        st = [lambda: base.fmt(spec_), lambda: Style(t, fmt=spec_, bold=bool(bold), fg=2, color=color), lambda: base(t, fmt=spec_)][how]()
+        want = format(t, spec_)
+        try:
+            out = str(st)
+            n = len(st)
+        except Exception as e:  # noqa: BLE001
+            return False, 'exception', type(e).__name__ + ': ' + str(e)[:80]
+        if descape(out) != want:
+            return False, 'stored-spec-not-applied', [pol, how, spec_, t, out, want]
+        if n != len(want):
+            return False, 'visible-length', [pol, how, spec_, t, n, len(want)]
+        if pol in (1, 2) and out != want:
+            return False, 'disabled-not-plain', [out, want]
+        return True, 'colour' if pol in (0, 3) else 'plain', None
+
+    cache = {}
+
+    def body(args):
+        if _tracing():
+            lim = [4, 3, len(specs), len(texts), 2]
+            sel = []
+            for a, hi in zip(args, lim):
+                v = 0
+                for i in range(hi):
+                    if a == i:
+                        v = i
+                sel.append(v)
+            from crosshair.tracers import NoTracing
+            with NoTracing():
+                cache.clear()
+                cache[tuple(sel)] = r = native(sel)
+                return r
+        return cache.get(tuple(args)) or native(list(args))
+
+    body.warm = [(0, 0, 0, 0, 0), (1, 1, 1, 1, 1)]
+    return body
+
+
 def make_repr(spec):
     """B: Style.from_raw(repr(s)) has the same attributes (symbolic attribute values) and the same text (concrete texts)."""
     from tatsu.ztyle.style import Color, Style
@@ -188,6 +239,8 @@ def plan(tier, seed):
         obs.append(Ob(name=f'A_fmt{i}', factory='vt.props.c20:make_apply', spec={'group': 'fg', 'ntext': 2, 'fmt': f}, params=[('fg', 0, 3)] + text_params(2), budget=90 if tier == 'quick' else 600, group='A-fmt'))
     obs.append(Ob(name='A_env_policy', factory='vt.props.c20:make_env', spec={}, params=[('force', 0, 3), ('nocolor', 0, 3), ('forcecolor', 0, 2), ('tty', 0, 2)], budget=200, group='A',
                   require_tags=('colour', 'plain')))
+    obs.append(Ob(name='A_stored_fmt', factory='vt.props.c20:make_stored_fmt', spec={}, params=[('policy', 0, 4), ('how', 0, 3), ('spec', 0, 6), ('text', 0, 4), ('bold', 0, 2)],
+                  budget=600, group='A', require_tags=('colour', 'plain')))
     obs.append(Ob(name='B_repr_mods', factory='vt.props.c20:make_repr', spec={'group': 'mods', 'texts': TEXTS[:4]}, params=[(m, 0, 2) for m in MODS], budget=900, group='B'))
     obs.append(Ob(name='B_repr_fg', factory='vt.props.c20:make_repr', spec={'group': 'fg', 'texts': TEXTS}, params=[('fg', -2, 258)], budget=900, group='B'))
     obs.append(Ob(name='B_repr_bg', factory='vt.props.c20:make_repr', spec={'group': 'bg', 'texts': TEXTS[:3]}, params=[('bg', -2, 258)], budget=900, group='B'))
